@@ -61,7 +61,7 @@ CHECKS = {
    technique="exception-escape analysis by exhaustive symbolic path enumeration with per-character-class summaries of helper functions; language comparison of the three entry points; defect-language check per raised class",
    text="Every path of IBAN/BIC __init__, validate, is_valid (all flags) is enumerated with its regular language; any path ending in a non-library exception is reported with a shortest witness (this found the non-ASCII-digit ValueError). "
         "is_valid returns a bool on every path; constructor, validate and is_valid accept the same language under every valuation; each raised class is checked against the language of texts that have that defect; "
-        "every national algorithm is additionally evaluated on all structure-conforming field values (abstract strings) and may only return or raise library errors.",
+        "the BBAN-level national check is additionally evaluated for every country of the table on all structure-conforming field values (abstract strings) and may only return or raise library errors.",
    note="National algorithms under validate_bban are opaque here and decided per country in C06. Message texts are not checked.",
    design="3/C05"),
  "C16": dict(
@@ -85,7 +85,7 @@ CHECKS = {
  "C18": dict(
    technique="translation validation of registry.py against the stated composition: abstract evaluation over a virtual file system on a bounded-exhaustive document space, adversarial listing order",
    text="merge_dicts is evaluated on all 10 000 pairs of a document space with scalar/dict/nested/list/null conflicts (plus deeper sampled pairs) and must equal the deep later-wins merge and leave operands untouched; "
-        "get() is evaluated on virtual directories of three dict files and of list files with a v2 file, with glob returning names in non-sorted orders and with name sets whose order differs by stem, by case and by code point; build_index on empty and partially empty keys; all readers go through registry.get.",
+        "get() is evaluated on virtual directories of three dict files and of list files with a v2 file, with glob returning names in non-sorted orders and with name sets whose order differs by stem, by case and by code point; build_index on empty and partially empty keys; all readers go through registry.get; the tree's get('iban') / get('bank') evaluated on the real bundled files must equal the data model every other check reads the data through (R18-real).",
    note="Trusted: datamodel.py's deep_merge/expand_v2 as the statement of C18. Outside the bounded shape space the result is inferred.",
    design="3/C18"),
  "C14": dict(
@@ -123,7 +123,7 @@ CHECKS = {
    technique="non-determinism source scan over the call graph reachable from the random entry points (scope-aware) + abstract evaluation of BBAN.random per country with modelled Random / Rstr, pinned components checked on every returned value + generator discipline and validity decided by evaluation with a marked generator and a recording IBAN constructor",
    text="Every function reachable from IBAN.random/BBAN.random and the loaders that order their data are scanned for unseeded Random, module-level random functions, Rstr without the caller's generator, hash/id/time/urandom, set iteration, unsorted listings; "
         "country patterns are checked to stay inside what rstr expands through the generator; BBAN.random is evaluated abstractly for 119 countries x {bank, branch, account} x {registry, no registry} x {exact, short, leading zeros, too long}: "
-        "each returned BBAN must carry the pinned value at its published range (found the PL/SI override and the silent truncation); every draw on every explored path of BBAN.random / IBAN.random uses the caller's generator (marked generator; the spelling of the None fallback is irrelevant); whatever IBAN.random returns was built by the IBAN constructor with validation on; "
+        "each returned BBAN must conform to the country's structure at every position and carry the pinned value at its published range; pins of the wrong character class and non-ASCII digits must never be returned (found the PL/SI override, the silent truncation and the non-conforming BBANs handed out for wrong-class pins); every draw on every explored path of BBAN.random / IBAN.random uses the caller's generator (marked generator; the spelling of the None fallback is irrelevant); whatever IBAN.random returns was built by the IBAN constructor with validation on; "
         "a registry-based draw belongs to the drawn bank (R13-registry); an un-sorted() directory listing is reported only when evaluation on a virtual directory shows the result depends on listing order.",
    note="Retry loops are evaluated for two iterations; random.choice over large lists is represented by one entry per (bank-code length, has-BIC) class; 'for every seed a valid result' is decided as must-pass-through validation.",
    design="3/C13"),
